@@ -41,6 +41,8 @@ pub struct Snap {
     pub bytes_eq: bool,
     /// storage pointer modulo the element alignment
     pub misalign: usize,
+    /// what the typed view's own getters say: (len, capacity, is_empty, as_ptr); None when no typed view could be had
+    pub typed_getters: Option<(usize, usize, bool, usize)>,
 }
 
 pub trait DynRig {
